@@ -259,17 +259,22 @@ def violations_of(res, crash, flavour, plan_text, profile):
             # the watchdog is wall-clock time, which the simulation does not control: a run is only called a hang when a fresh
             # process given HANG_CONFIRM_S (far beyond the slowest finite run seen, a walk up all twelve precision levels
             # under ASan) does not finish either; a run that does finish is judged by its result like any other
-            r2, c2, lines = replay_once(flavour, plan_text, trace=True, tag="classify", timeout=HANG_CONFIRM_S)
+            # first 240 s, which tells at which operation the run is stuck; only solves (ladder walks) get the long confirmation
+            r2, c2, lines = replay_once(flavour, plan_text, trace=True, tag="classify", timeout=240)
+            opdesc, opline = op_at_crash(lines)
+            waited = 240
+            if r2 is None and c2 is not None and c2["kind"] == "hang" and opdesc.startswith(("solve", "esolver", "verdict", "?")):
+                r2, c2, lines = replay_once(flavour, plan_text, trace=True, tag="classify", timeout=HANG_CONFIRM_S)
+                opdesc, opline = op_at_crash(lines); waited = HANG_CONFIRM_S
             if r2 is not None:
                 SLOW_RUNS[0] += 1
                 return violations_of(r2, None, flavour, plan_text, profile)
             if c2 is not None and c2["kind"] != "hang":
                 return violations_of(None, c2, flavour, plan_text, profile)
-            opdesc, opline = op_at_crash(lines)
             cls = "hang:" + opdesc
             # termination is promised by C03 (solves) and C11 (readers); no listed property speaks about other calls
             prop = "C03" if opdesc.startswith("solve") else "C11" if opdesc.startswith(("read", "rbasis")) else "NOTE"
-            return [(prop, cls, "no result within %d s in a fresh process; last op: %s" % (HANG_CONFIRM_S, opline))]
+            return [(prop, cls, "no result within %d s in a fresh process; last op: %s" % (waited, opline))]
         _, c2, lines = replay_once(flavour, plan_text, trace=True, tag="classify")
         opdesc, opline = op_at_crash(lines)
         san = crash["san"] or (c2["san"] if c2 else "")
@@ -318,6 +323,8 @@ def reproduces(flavour, text, prop, cls, profile, tag="gate"):
     if cls.startswith("valgrind:"):
         txt = valgrind_run(text)
         return bool(txt.strip()) and cls.split(":")[1].replace("_", " ") in txt
+    if cls.startswith("hang:"):   # violations_of runs the fresh-process confirmation itself
+        return any(p == prop and c == cls for (p, c, _) in violations_of(None, {"kind": "hang", "exit": None, "san": ""}, flavour, text, profile))
     res, crash, _ = replay_once(flavour, text, tag=tag)
     if crash is not None and crash["kind"] == "crash" and not cls.startswith(("crash", "hang")):
         return False
@@ -722,6 +729,7 @@ def check(prop, tier):
     known_hit = {}
     replay_dir = os.path.join(OUT, "replays", prop)
     viol_count = 0
+    unconfirmed = []
     for (p, c), info in sorted(found.items()):
         if p == "HARNESS":
             lines.append("HARNESS-ERROR: %s %s" % (c, info["detail"][:300].replace("\n", " | ")))
@@ -734,21 +742,22 @@ def check(prop, tier):
         # replay gate: same class in a fresh process, twice
         text = info["plan"]
         ok = 0
-        for _ in range(2):
+        for _ in range(1 if c.startswith("hang:") else 2):   # a hang was already confirmed once in a fresh process when it was classified
             if reproduces(info["flavour"], text, p, c, info["profile"]):
                 ok += 1
+        if c.startswith("hang:"):
+            ok += 1
         if ok < 2:
-            lines.append("HARNESS-ERROR: violation %s %s from seed %d did not reproduce in a fresh process (%d/2)" % (p, c, info["seed"], ok))
-            exit_code = max(exit_code, 2)
+            unconfirmed.append("violation %s %s from seed %d did not reproduce in a fresh process (%d/2)" % (p, c, info["seed"], ok))
             continue
         log = []
         small = shrink(info["flavour"], text, p, c, info["profile"], budget=int(os.environ.get("VERIF_SHRINK_BUDGET", "250")), log=log)
         os.makedirs(replay_dir, exist_ok=True)
         name = re.sub(r"[^A-Za-z0-9_.-]+", "_", c)[:80] + "-" + hashlib.sha256(small.encode()).hexdigest()[:8] + ".plan"
         path = os.path.join(replay_dir, name)
-        if not reproduces(info["flavour"], small, p, c, info["profile"], tag="final"):
+        if small != text and not reproduces(info["flavour"], small, p, c, info["profile"], tag="final"):
             small = text   # keep the unshrunk plan rather than a wrong one
-        res, crash, tl = replay_once(info["flavour"], small, trace=True, tag="final")
+        res, crash, tl = replay_once(info["flavour"], small, trace=True, tag="final", timeout=60 if c.startswith("hang:") else 120)
         with open(path, "w") as fh:
             fh.write(small)
             fh.write("expect property=%s class=%s flavour=%s profile=%s seed=%d\n" % (p, c, info["flavour"], info["profile"], info["seed"]))
@@ -760,6 +769,14 @@ def check(prop, tier):
         lines.append("  " + info["detail"][:400].replace("\n", " | "))
         viol_count += 1
         exit_code = max(exit_code, 1)
+    # something seen in a worker that a fresh process does not show is a harness error (exit 2) - unless the same check has a
+    # confirmed violation anyway: a change that corrupts memory silently crashes wherever the heap layout takes it, and the
+    # layouts of a long-lived worker and of a fresh process differ
+    for u in unconfirmed:
+        if viol_count:
+            lines.append("note: unconfirmed besides the confirmed violation(s): " + u)
+        else:
+            lines.append("HARNESS-ERROR: " + u); exit_code = max(exit_code, 2)
     for fid, f in sorted(known_hit.items()):
         lines.append("KNOWN-FINDING: property=%s %s [%s]" % (f["property"], f["what"], fid))
     if nondet:
@@ -800,6 +817,10 @@ def check(prop, tier):
     os.makedirs(os.path.join(OUT, "evidence"), exist_ok=True)
     with open(os.path.join(OUT, "evidence", prop + ".json"), "w") as fh:
         json.dump(ev, fh, indent=1, sort_keys=True)
+    if tier == "thorough":   # kept next to the file the next quick run rewrites
+        os.makedirs(os.path.join(OUT, "evidence", "thorough"), exist_ok=True)
+        with open(os.path.join(OUT, "evidence", "thorough", prop + ".json"), "w") as fh:
+            json.dump(ev, fh, indent=1, sort_keys=True)
     print("%s %s: %d runs (%d non-trivial, %d distinct), %d ops, %.1fs, faults fired: %s" % (prop, tier, stats["runs"], stats["nontrivial_runs"], len(plan_hashes_nontrivial), stats["ops"], wall,
           ",".join("%s=%d" % kv for kv in sorted(stats["faults"].items())) or "none"))
     for ln in lines:
